@@ -327,5 +327,5 @@ pub fn c07_case() -> BoxedStrategy<Case> {
 
 pub fn run(ctx: &Ctx) {
     ctx.replay_findings(&oracle);
-    ctx.search("withheld-template-histories", ctx.n(80_000, 2_500_000), &c07_case, &oracle);
+    ctx.search("withheld-template-histories", ctx.n(400_000, 30_000_000), &c07_case, &oracle);
 }
